@@ -26,14 +26,15 @@ def gotest_json(cwd, pkg, run=None, skip=None, timeout=420):
     return rc, res, out
 
 def main():
-    sid = sys.argv[1]
-    checks = [sid] + sys.argv[2:]
+    sid = sys.argv[1]          # C03 or, for later rounds, C03b
+    prop = sid[:3]
+    checks = [prop] + sys.argv[2:]
     src = f"/tmp/seed-out/{sid}"
     patch = open(src + "/patch.diff").read()
     touched = sorted({os.path.dirname(m) for m in re.findall(r"^\+\+\+ b/(\S+)", patch, re.M)})
     R = f"/tmp/se-{sid}-{os.getpid()}"
     sh(f"rm -rf {R}; git clone -q /repo {R}")
-    meta = {"property": sid, "patch_files": re.findall(r"^\+\+\+ b/(\S+)", patch, re.M), "confirmed": {}, "checks": {}}
+    meta = {"property": prop, "seed": sid, "patch_files": re.findall(r"^\+\+\+ b/(\S+)", patch, re.M), "confirmed": {}, "checks": {}}
     try:
         # demo files
         demos = []
